@@ -314,3 +314,355 @@ Proof.
   rewrite Nat2Z.inj_succ. unfold Z.succ. rewrite inject_Z_plus.
   change (inject_Z 1) with 1%Q. field. exact Hk.
 Qed.
+
+(** ** The loader *)
+Section Loader.
+Variable pint : string -> option Z.
+Variable pflt : string -> option num.
+Variable pval : string -> option num.
+
+Notation read_lines := (read_lines pint pflt pval).
+Notation parse_header := (parse_header pint pflt).
+Notation loadtxt := (loadtxt pval).
+Notation header_is := (header_is pint pflt).
+Notation body_is := (body_is pval).
+Notation load_surfer := (load_surfer pint pflt pval).
+
+Lemma map_opt_length {A B} (f : A -> option B) l r : map_opt f l = Some r -> length r = length l.
+Proof.
+  revert r. induction l as [|x l IH]; intros r H; cbn in H.
+  - now injection H as <-.
+  - destruct (f x); [|discriminate]. destruct (map_opt f l) eqn:E; [|discriminate].
+    injection H as <-. cbn. f_equal. now apply IH.
+Qed.
+
+Lemma list_eqb_Z (a b : list Z) : list_eqb Z.eqb a b = true <-> a = b.
+Proof. apply list_eqb_spec. intros x y. apply Z.eqb_eq. Qed.
+
+Lemma rect_shape {A} (rows : list (list A)) r t :
+  rows = r :: t -> rect rows = true -> Forall (fun r' => length r' = length r) rows.
+Proof.
+  intros -> H. cbn in H. constructor; [reflexivity|].
+  apply Forall_forall. intros x Hx. rewrite forallb_forall in H.
+  apply Nat.eqb_eq. now apply H.
+Qed.
+
+(** a 2-D field shape: at least 2 x 2, every row of the same length *)
+Lemma field_shape_2d {A} (rows : list (list A)) (nr nc : Z) :
+  rect rows = true -> Forall (fun r => r <> []) rows ->
+  field_shape rows = [nr; nc] ->
+  (2 <= Z.to_nat nr)%nat /\ (2 <= Z.to_nat nc)%nat /\
+  nr = Z.of_nat (Z.to_nat nr) /\ nc = Z.of_nat (Z.to_nat nc) /\
+  has_shape rows (Z.to_nat nr) (Z.to_nat nc).
+Proof.
+  intros Hrect Hne Hs. destruct rows as [|r t]; [discriminate|].
+  pose proof (rect_shape _ r t eq_refl Hrect) as Hall.
+  inversion Hne as [|? ? Hr _]. subst.
+  assert (Hlr : (1 <= length r)%nat) by (destruct r; [congruence|cbn; lia]).
+  cbn [field_shape filter] in Hs.
+  destruct (Z.eqb_spec (Z.of_nat (length (r :: t))) 1) as [E1|E1];
+    destruct (Z.eqb_spec (Z.of_nat (length r)) 1) as [E2|E2]; cbn [negb] in Hs; try discriminate.
+  injection Hs as <- <-.
+  rewrite !Nat2Z.id.
+  assert (Hlen : length (r :: t) = S (length t)) by reflexivity.
+  repeat split; try lia. exact Hall.
+Qed.
+
+Lemma field_shape_has {A} (rows : list (list A)) (nr nc : nat) :
+  (2 <= nr)%nat -> (2 <= nc)%nat -> has_shape rows nr nc ->
+  field_shape rows = [Z.of_nat nr; Z.of_nat nc] /\ rect rows = true /\ concat rows <> [].
+Proof.
+  intros Hnr Hnc [Hl Hall]. destruct rows as [|r t]; [cbn in Hl; lia|].
+  inversion Hall as [|x l Hr Ht]. subst x l.
+  cbn [field_shape filter]. rewrite Hr, Hl.
+  destruct (Z.eqb_spec (Z.of_nat nr) 1) as [E1|E1]; [lia|].
+  destruct (Z.eqb_spec (Z.of_nat nc) 1) as [E2|E2]; [lia|].
+  cbn [negb]. repeat split.
+  - cbn [rect]. apply forallb_forall. intros x Hx. apply Nat.eqb_eq.
+    rewrite Forall_forall in Ht. rewrite Hr. now apply Ht.
+  - destruct r; [cbn in Hr; lia|]. cbn. discriminate.
+Qed.
+
+Lemma has_shape_field {A} (rows : list (list A)) (nr nc : nat) :
+  rect rows = true -> field_shape rows = [Z.of_nat nr; Z.of_nat nc] -> has_shape rows nr nc.
+Proof.
+  intros Hrect Hs. destruct rows as [|r t]; [discriminate|].
+  pose proof (rect_shape _ r t eq_refl Hrect) as Hall.
+  cbn [field_shape filter] in Hs.
+  destruct (Z.eqb_spec (Z.of_nat (length (r :: t))) 1) as [E1|E1];
+    destruct (Z.eqb_spec (Z.of_nat (length r)) 1) as [E2|E2]; cbn [negb] in Hs; try discriminate.
+  injection Hs as H1 H2.
+  assert (H1' : length (r :: t) = nr) by (cbn [length]; lia).
+  assert (H2' : length r = nc) by lia.
+  split; [exact H1'|]. rewrite <- H2'. exact Hall.
+Qed.
+
+Lemma body_rows_nonempty f : Forall (fun r => r <> []) (body_rows f).
+Proof.
+  apply Forall_forall. intros r Hr. unfold body_rows in Hr.
+  apply filter_In in Hr as [_ Hr]. destruct r; [discriminate|discriminate].
+Qed.
+
+Lemma map_opt_rows_nonempty rows vals :
+  map_opt (map_opt pval) rows = Some vals ->
+  Forall (fun r => r <> []) rows -> Forall (fun r : list num => r <> []) vals.
+Proof.
+  revert vals. induction rows as [|r t IH]; intros vals H HF; cbn in H.
+  - injection H as <-. constructor.
+  - destruct (map_opt pval r) as [v|] eqn:Ev; [|discriminate].
+    destruct (map_opt (map_opt pval) t) as [vt|] eqn:Et; [|discriminate].
+    injection H as <-. inversion HF as [|? ? Hr Ht]. subst. constructor.
+    + apply map_opt_length in Ev. destruct v; [|discriminate].
+      destruct r; [congruence|discriminate].
+    + now apply IH.
+Qed.
+
+(** *** Soundness: a returned grid is the file's grid *)
+Theorem load_sound fileattr dt f g :
+  read_lines fileattr dt f = Ok g ->
+  exists nr nc s n w e rng rows,
+    (2 <= nr)%nat /\ (2 <= nc)%nat /\
+    header_is f nr nc s n w e rng /\
+    body_is f rows /\ has_shape rows nr nc /\
+    range_agrees dt rows rng /\
+    g_vals g = map (map (mask dt)) rows /\
+    g_north g = linspace (D2Q s) (D2Q n) nr /\
+    g_east g = linspace (D2Q w) (D2Q e) nc /\
+    g_id g = strip (line f 0) /\
+    g_file g = fileattr /\
+    g_dims g = ["northing"; "easting"] /\
+    g_dtype g = dt.
+Proof.
+  unfold read_lines, Surfer.read_lines, Surfer.parse_header, Surfer.loadtxt, check_integrity.
+  intros H.
+  destruct (map_opt pint (split_ws (line f 1))) as [shape|] eqn:E1; [|discriminate].
+  destruct (map_opt pflt (split_ws (line f 2))) as [[|s0 [|n0 [|]]]|] eqn:E2; try discriminate.
+  destruct (map_opt pflt (split_ws (line f 3))) as [[|w0 [|e0 [|]]]|] eqn:E3; try discriminate.
+  destruct (map_opt pflt (split_ws (line f 4))) as [rng|] eqn:E4; [|discriminate].
+  cbn [bind] in H.
+  destruct (map_opt (map_opt pval) (body_rows f)) as [rows|] eqn:E5; [|discriminate].
+  destruct (rect rows) eqn:Erect; [|discriminate].
+  cbn [bind h_shape h_range h_south h_north h_west h_east h_id] in H.
+  destruct (list_eqb Z.eqb (field_shape rows) shape) eqn:Eshape; [|discriminate].
+  cbn [negb] in H.
+  destruct (is_nil (concat rows)) eqn:Enil; [discriminate|].
+  destruct (range_close (field_min dt rows) (field_max dt rows) rng) as [[|]|] eqn:Erng; try discriminate.
+  cbn [bind] in H.
+  apply list_eqb_Z in Eshape.
+  destruct shape as [|nr [|nc [|]]]; try discriminate.
+  destruct s0 as [s| | |]; try discriminate.
+  destruct n0 as [n| | |]; try discriminate.
+  destruct w0 as [w| | |]; try discriminate.
+  destruct e0 as [e| | |]; try discriminate.
+  injection H as <-.
+  pose proof (map_opt_rows_nonempty _ _ E5 (body_rows_nonempty f)) as Hne.
+  destruct (field_shape_2d rows nr nc Erect Hne Eshape) as (Hnr & Hnc & Enr & Enc & Hshape).
+  exists (Z.to_nat nr), (Z.to_nat nc), s, n, w, e, rng, rows.
+  cbn [g_vals g_north g_east g_id g_file g_dims g_dtype].
+  repeat split; try assumption; try reflexivity.
+  - rewrite <- Enr, <- Enc. exact E1.
+  - apply Hshape.
+  - apply Hshape.
+Qed.
+
+(** in a returned grid, a cell is NaN exactly when the file's value is a blank *)
+Lemma range_agrees_no_nan dt rows rng :
+  range_agrees dt rows rng -> ~ In NaN (unmasked dt rows).
+Proof.
+  unfold range_agrees, range_close, field_min. intros H Hin.
+  rewrite (fold_num_nan nmin _ nmin_nan_l nmin_nan_r Hin) in H.
+  destruct rng as [|b1 [|b2 [|]]]; cbn in H; discriminate.
+Qed.
+
+Theorem blank_iff_nan dt rows rng v :
+  range_agrees dt rows rng -> In v (concat rows) ->
+  (mask dt v = NaN <-> is_blank dt v = true).
+Proof.
+  intros Hr Hin. unfold mask. destruct (is_blank dt v) eqn:Eb.
+  - split; reflexivity.
+  - split; [|discriminate]. intros ->. exfalso.
+    apply (range_agrees_no_nan _ _ _ Hr). unfold unmasked. apply filter_In. split; [exact Hin|].
+    now rewrite Eb.
+Qed.
+
+(** *** Completeness: a well-formed file whose header agrees with its body loads *)
+Theorem load_complete fileattr dt f nr nc s n w e rng rows :
+  (2 <= nr)%nat -> (2 <= nc)%nat ->
+  header_is f nr nc s n w e rng ->
+  body_is f rows -> has_shape rows nr nc ->
+  range_agrees dt rows rng ->
+  read_lines fileattr dt f =
+    Ok {| g_vals := map (map (mask dt)) rows;
+          g_north := linspace (D2Q s) (D2Q n) nr;
+          g_east := linspace (D2Q w) (D2Q e) nc;
+          g_id := strip (line f 0);
+          g_file := fileattr;
+          g_dims := ["northing"; "easting"];
+          g_dtype := dt |}.
+Proof.
+  intros Hnr Hnc (E1 & E2 & E3 & E4) E5 Hshape Hrng.
+  destruct (field_shape_has rows nr nc Hnr Hnc Hshape) as (Efs & Erect & Hne).
+  unfold read_lines, Surfer.read_lines, Surfer.parse_header, Surfer.loadtxt, check_integrity.
+  rewrite E1, E2, E3, E4. cbn [bind]. unfold body_is, Surfer.body_is in E5. rewrite E5, Erect.
+  cbn [bind h_shape h_range h_south h_north h_west h_east h_id].
+  rewrite Efs. assert (Eq : list_eqb Z.eqb [Z.of_nat nr; Z.of_nat nc] [Z.of_nat nr; Z.of_nat nc] = true)
+    by (now apply list_eqb_Z).
+  rewrite Eq. cbn [negb].
+  assert (Enil : is_nil (concat rows) = false) by (destruct (concat rows); [congruence|reflexivity]).
+  rewrite Enil.
+  unfold range_agrees in Hrng. rewrite Hrng. cbn [bind].
+  rewrite !Nat2Z.id. reflexivity.
+Qed.
+
+(** *** Refusal *)
+
+(** the header cannot be read: ValueError *)
+Theorem load_refuses_header fileattr dt f e :
+  parse_header f = Err e -> read_lines fileattr dt f = Err e.
+Proof. unfold read_lines, Surfer.read_lines. now intros ->. Qed.
+
+(** a body token that is not a number: ValueError *)
+Theorem load_refuses_token fileattr dt f h :
+  parse_header f = Ok h -> map_opt (map_opt pval) (body_rows f) = None ->
+  read_lines fileattr dt f = Err EValue.
+Proof.
+  unfold read_lines, Surfer.read_lines, Surfer.loadtxt. intros -> ->. reflexivity.
+Qed.
+
+(** the body is not [nr] lines of [nc] numbers (too few / too many lines or
+    columns, wrapped rows, ragged rows): IOError if it is a rectangle of the
+    wrong shape, ValueError (from loadtxt) if it is ragged; never a grid *)
+Theorem load_refuses_shape fileattr dt f nr nc s n w e rng rows :
+  header_is f nr nc s n w e rng -> body_is f rows ->
+  ~ has_shape rows nr nc ->
+  read_lines fileattr dt f = Err (if rect rows then EIO else EValue).
+Proof.
+  intros (E1 & E2 & E3 & E4) E5 Hns.
+  unfold read_lines, Surfer.read_lines, Surfer.parse_header, Surfer.loadtxt, check_integrity.
+  rewrite E1, E2, E3, E4. cbn [bind]. unfold body_is, Surfer.body_is in E5. rewrite E5.
+  destruct (rect rows) eqn:Erect; [|reflexivity].
+  cbn [bind h_shape].
+  destruct (list_eqb Z.eqb (field_shape rows) [Z.of_nat nr; Z.of_nat nc]) eqn:Es; [|reflexivity].
+  exfalso. apply Hns. apply list_eqb_Z in Es. now apply has_shape_field.
+Qed.
+
+Corollary load_refuses_wrapped fileattr dt f nr nc s n w e rng rows r :
+  header_is f nr nc s n w e rng -> body_is f rows ->
+  In r rows -> length r <> nc ->
+  exists err, read_lines fileattr dt f = Err err.
+Proof.
+  intros Hh Hb Hin Hlen. eexists. eapply load_refuses_shape; try eassumption.
+  intros [_ Hall]. rewrite Forall_forall in Hall. apply Hlen. now apply Hall.
+Qed.
+
+Corollary load_refuses_row_count fileattr dt f nr nc s n w e rng rows :
+  header_is f nr nc s n w e rng -> body_is f rows ->
+  length rows <> nr ->
+  exists err, read_lines fileattr dt f = Err err.
+Proof.
+  intros Hh Hb Hlen. eexists. eapply load_refuses_shape; try eassumption.
+  intros [Hl _]. now apply Hlen.
+Qed.
+
+(** the header's data range is not allclose to the body's: IOError (or
+    ValueError when the range line does not have one or two numbers) *)
+Theorem load_refuses_range fileattr dt f nr nc s n w e rng rows :
+  header_is f nr nc s n w e rng -> body_is f rows ->
+  ~ range_agrees dt rows rng ->
+  exists err, read_lines fileattr dt f = Err err.
+Proof.
+  intros Hh Hb Hnr.
+  destruct (read_lines fileattr dt f) as [g|err] eqn:E; [|now exists err].
+  exfalso. apply load_sound in E.
+  destruct E as (nr' & nc' & s' & n' & w' & e' & rng' & rows' & _ & _ & Hh' & Hb' & _ & Hr' & _).
+  destruct Hh as (_ & _ & _ & E4). destruct Hh' as (_ & _ & _ & E4').
+  unfold body_is, Surfer.body_is in Hb, Hb'.
+  assert (rng' = rng) by congruence. assert (rows' = rows) by congruence. subst. now apply Hnr.
+Qed.
+
+(** no input yields a grid that differs from the file: whenever a grid is
+    returned, every one of its cells is the (masked) number written at that
+    place of the file *)
+Corollary load_cells fileattr dt f g :
+  read_lines fileattr dt f = Ok g ->
+  exists rows, body_is f rows /\
+    forall i j, nth j (nth i (g_vals g) []) NaN = 
+                match nth_error rows i with
+                | Some r => match nth_error r j with Some v => mask dt v | None => NaN end
+                | None => NaN
+                end.
+Proof.
+  intros H. apply load_sound in H.
+  destruct H as (nr & nc & s & n & w & e & rng & rows & _ & _ & _ & Hb & _ & _ & Hv & _).
+  exists rows. split; [exact Hb|]. intros i j. rewrite Hv. clear.
+  revert i j. induction rows as [|r t IH]; intros [|i] j; cbn; try (destruct j; reflexivity).
+  - revert j. induction r as [|v r IHr]; intros [|j]; cbn; try reflexivity. apply IHr.
+  - apply IH.
+Qed.
+
+(** *** Handles *)
+
+Definition with_file (fa : option string) (g : grid) : grid :=
+  {| g_vals := g_vals g; g_north := g_north g; g_east := g_east g; g_id := g_id g;
+     g_file := fa; g_dims := g_dims g; g_dtype := g_dtype g |}.
+
+Definition map_result {A B} (k : A -> B) (r : result A) : result B :=
+  match r with Ok a => Ok (k a) | Err e => Err e end.
+
+Lemma read_lines_fileattr fa dt f :
+  read_lines fa dt f = map_result (with_file fa) (read_lines None dt f).
+Proof.
+  unfold read_lines, Surfer.read_lines.
+  destruct (parse_header f) as [h|]; [|reflexivity]. cbn [bind].
+  destruct (loadtxt f) as [rows|]; [|reflexivity]. cbn [bind].
+  destruct (check_integrity dt rows h); [|reflexivity]. cbn [bind].
+  destruct (h_shape h) as [|nr [|nc [|]]]; try reflexivity.
+  destruct (h_south h), (h_north h), (h_west h), (h_east h); reflexivity.
+Qed.
+
+(** what the function computes, whichever way it is called *)
+Theorem load_surfer_result fs src dt :
+  o_result (load_surfer fs src dt) =
+  match src with
+  | Path p => match fs p with
+              | None => Err EIO
+              | Some c => read_lines (Some p) dt c
+              end
+  | FileObj h => match hd_state h with
+                 | Closed => Err EValue
+                 | Opened => read_lines None dt (hd_lines h)
+                 end
+  end.
+Proof.
+  destruct src as [p|h]; cbn.
+  - destruct (fs p); reflexivity.
+  - unfold read_handle. destruct (hd_state h); reflexivity.
+Qed.
+
+(** the file the function opens is closed when it returns or raises, on every
+    input; nothing else is opened *)
+Theorem handle_closed fs p dt :
+  match o_opened (load_surfer fs (Path p) dt) with
+  | Some h => hd_state h = Closed /\ fs p = Some (hd_lines h)
+  | None => fs p = None
+  end /\ o_given (load_surfer fs (Path p) dt) = None.
+Proof. cbn. destruct (fs p); cbn; repeat split; reflexivity. Qed.
+
+(** a caller's file object is not closed, and no file is opened *)
+Theorem fileobj_untouched fs h dt :
+  o_opened (load_surfer fs (FileObj h) dt) = None /\
+  o_given (load_surfer fs (FileObj h) dt) = Some h.
+Proof. split; reflexivity. Qed.
+
+(** same result from a path or from an open file object on the same
+    content, up to the [file] attribute *)
+Theorem path_equals_fileobj fs p c dt :
+  fs p = Some c ->
+  o_result (load_surfer fs (Path p) dt) =
+  map_result (with_file (Some p))
+    (o_result (load_surfer fs (FileObj {| hd_lines := c; hd_state := Opened |}) dt)).
+Proof.
+  intros E. rewrite !load_surfer_result, E. cbn [hd_state hd_lines]. apply read_lines_fileattr.
+Qed.
+
+End Loader.
